@@ -119,25 +119,126 @@ theorem fresh_hits (cfg : Cfg) (t0 : Int) (req : Req) (e : Entry) (key : Str) (r
   simp only [hnc, hoic, Bool.not_false, Bool.and_true, Bool.or_true, ↓reduceIte] at h
   split at h <;> (cases h; exact ⟨rfl, _, rfl⟩)
 
+theorem alookup_filter_self {β} (k : Str) (m : List (Str × β)) :
+    alookup k (m.filter (fun p => p.1 ≠ k)) = none := by
+  induction m with
+  | nil => rfl
+  | cons p ps ih =>
+    rw [List.filter_cons]
+    by_cases hp : p.1 = k
+    · have : decide (p.1 ≠ k) = false := by simp [hp]
+      rw [this]; exact ih
+    · have : decide (p.1 ≠ k) = true := by simp [hp]
+      rw [this]
+      obtain ⟨a, b⟩ := p
+      simp only [↓reduceIte, alookup]
+      simp only at hp
+      simp only [hp, ↓reduceIte]
+      exact ih
+
+theorem maxAge_filter (cc : Directives) : Directives.maxAge (cc.filter (fun p => p.1 ≠ (str% "max-age"))) = none := by
+  unfold Directives.maxAge Directives.dur
+  rw [alookup_filter_self]; rfl
+
+/-- whatever the request carries: the freshness the hit path works with has the age of the stored
+    response and a lifetime that is never longer than the response's own -/
+theorem transport_fields_le (g : Glue) (now : Int) (e : Entry) (reqCC resCC : Directives) :
+    (transportFreshness g now e reqCC resCC).1.ageValue = currentAge g now e ∧
+    (transportFreshness g now e reqCC resCC).1.ageTimestamp = now ∧
+    (transportFreshness g now e reqCC resCC).1.usefulLife ≤ responseLifetime g e resCC := by
+  unfold transportFreshness
+  cases hm : reqCC.maxAge with
+  | none =>
+    simp only
+    have h0 : reqCC.maxAge ≠ some 0 := by rw [hm]; simp
+    obtain ⟨a, b, c⟩ := calc_fields g now e reqCC resCC h0
+    exact ⟨a, b, by rw [c]; exact requestLifetime_le _ _⟩
+  | some m =>
+    simp only
+    split
+    · rename_i hc
+      simp only [Bool.and_eq_true, decide_eq_true_eq, ne_eq] at hc
+      have h0 : reqCC.maxAge ≠ some 0 := by rw [hm]; intro hh; cases hh; exact hc.1 rfl
+      obtain ⟨a, b, c⟩ := calc_fields g now e reqCC resCC h0
+      exact ⟨a, b, by rw [c]; exact requestLifetime_le _ _⟩
+    · have h0 : Directives.maxAge (reqCC.filter (fun p => p.1 ≠ (str% "max-age"))) ≠ some 0 := by rw [maxAge_filter]; simp
+      obtain ⟨a, b, c⟩ := calc_fields g now e _ resCC h0
+      exact ⟨a, b, by rw [c]; exact requestLifetime_le _ _⟩
+
+/-- what the hit path hands to the validation (roundtripper.go calculateFreshness) when the request
+    carries no min-fresh and validation was reached because the response is stale or the request's
+    max-age is exceeded: the age, and the response's OWN lifetime — whatever max-age the request carries -/
+theorem transport_fields (g : Glue) (now : Int) (e : Entry) (reqCC resCC : Directives)
+    (hmf : reqCC.minFresh = none)
+    (h : (transportFreshness g now e reqCC resCC).2 = true ∨ (transportFreshness g now e reqCC resCC).1.isStale = true) :
+    (transportFreshness g now e reqCC resCC).1.ageValue = currentAge g now e ∧
+    (transportFreshness g now e reqCC resCC).1.ageTimestamp = now ∧
+    (transportFreshness g now e reqCC resCC).1.usefulLife = responseLifetime g e resCC := by
+  unfold transportFreshness at h ⊢
+  cases hm : reqCC.maxAge with
+  | none =>
+    simp only [hm] at h ⊢
+    have h0 : reqCC.maxAge ≠ some 0 := by rw [hm]; simp
+    obtain ⟨a, b, c⟩ := calc_fields g now e reqCC resCC h0
+    refine ⟨a, b, ?_⟩
+    rw [c]; unfold requestLifetime; rw [hm]
+  | some m =>
+    simp only [hm] at h ⊢
+    split
+    · rename_i hc
+      simp only [hc, ↓reduceIte] at h
+      simp only [Bool.and_eq_true, decide_eq_true_eq, Bool.not_eq_true', ne_eq] at hc
+      obtain ⟨hm0, hc⟩ := hc
+      have h0 : reqCC.maxAge ≠ some 0 := by rw [hm]; intro hh; cases hh; exact hm0 rfl
+      obtain ⟨a, b, c⟩ := calc_fields g now e reqCC resCC h0
+      refine ⟨a, b, ?_⟩
+      rcases h with h | h
+      · cases h
+      · -- stale, yet not "stale and age ≥ m": age < m; stale without min-fresh: age ≥ min(life, m)
+        rw [h] at hc
+        simp only [Bool.true_and, decide_eq_false_iff_not, Int.not_le] at hc
+        rw [a] at hc
+        rw [c]
+        unfold calculateFreshness at h
+        simp only [h0, ↓reduceIte] at h
+        have hmfs : minFreshStale reqCC (requestLifetime (responseLifetime g e resCC) reqCC) (currentAge g now e) = false := by
+          unfold minFreshStale; rw [hmf]
+        simp only [hmfs, Bool.false_eq_true, ↓reduceIte] at h
+        unfold staleAfterMaxStale at h
+        have hge : currentAge g now e ≥ requestLifetime (responseLifetime g e resCC) reqCC := by
+          split at h
+          · cases h
+          · simpa using h
+        unfold requestLifetime at hge ⊢
+        rw [hm] at hge ⊢
+        simp only at hge ⊢
+        split at hge
+        · rename_i hpos; simp only [hpos, ↓reduceIte]; omega
+        · rename_i hpos; simp only [hpos, ↓reduceIte]
+    · have h0 : Directives.maxAge (reqCC.filter (fun p => p.1 ≠ (str% "max-age"))) ≠ some 0 := by rw [maxAge_filter]; simp
+      obtain ⟨a, b, c⟩ := calc_fields g now e _ resCC h0
+      refine ⟨a, b, ?_⟩
+      rw [c]; unfold requestLifetime; rw [maxAge_filter]
+
 /-- stale-if-error completeness: when one of the two permitted sources carries stale-if-error = N, the
-    request sets no max-age of its own, and the stored response is inside the window by the RFC
+    request carries no min-fresh, validation was reached because the response is stale or the request's
+    max-age (of ANY value) is exceeded, and the stored response is inside the window by the RFC
     definitions at the instant of the failure, the model's policy says yes -/
 theorem sie_complete (g : Glue) (t0 t1 : Int) (e : Entry) (reqH : Header) (hle : t0 ≤ t1) (hrt : e.receivedAt ≤ t0)
-    (hs : e.resp.status ≠ 304) (hT : TimesOK e) (hreq : (parseCC reqH).maxAge = none) (d : Int)
+    (hs : e.resp.status ≠ 304) (hT : TimesOK e) (hmf : (parseCC reqH).minFresh = none)
+    (hreach : (transportFreshness g t0 e (parseCC reqH) (parseCC e.resp.header)).2 = true ∨
+              (transportFreshness g t0 e (parseCC reqH) (parseCC e.resp.header)).1.isStale = true) (d : Int)
     (hd : Spec.httpTime g.parseTime e.resp.header sDate = some d)
     (hdoc : Spec.heuristicallyCacheable.contains e.resp.status = true → isHeuristicStatus e.resp.status = true)
     (n : Int) (hn : Spec.directiveSeconds modelReader e.resp.header (str% "stale-if-error") = some n ∨
           Spec.directiveSeconds modelReader reqH (str% "stale-if-error") = some n)
     (hw : Spec.withinWindow modelReader g.parseTime (Spec.storedOfEntry e) t1 n = true) :
-    canStaleOnError (calculateFreshness g t0 e (parseCC reqH) (parseCC e.resp.header)) t1
+    canStaleOnError (transportFreshness g t0 e (parseCC reqH) (parseCC e.resp.header)).1 t1
           [parseCC e.resp.header, parseCC reqH] = true := by
-  have h0 : (parseCC reqH).maxAge ≠ some 0 := by rw [hreq]; simp
-  obtain ⟨ha, hts, hl⟩ := calc_fields g t0 e (parseCC reqH) (parseCC e.resp.header) h0
+  obtain ⟨ha, hts, hl⟩ := transport_fields g t0 e (parseCC reqH) (parseCC e.resp.header) hmf hreach
   unfold canStaleOnError
   rw [ha, hts, hl]
-  have hrl : requestLifetime (responseLifetime g e (parseCC e.resp.header)) (parseCC reqH) =
-      responseLifetime g e (parseCC e.resp.header) := by unfold requestLifetime; rw [hreq]
-  rw [hrl, life_eq g e hs d hd hdoc, age_eq g t0 e hT]
+  rw [life_eq g e hs d hd hdoc, age_eq g t0 e hT]
   have hstep := spec_age_step_eq g.parseTime (Spec.storedOfEntry e) t0 t1 hle hrt
   unfold Spec.withinWindow at hw
   simp only [decide_eq_true_eq] at hw
